@@ -520,9 +520,11 @@ def place_fields(place):
 
 
 _loaded = {}
+CFG_OVERRIDE = {}   # e.g. {"A": "B"}: the thorough tier re-runs the rules on another configuration
 
 
 def load(cfg="A"):
+    cfg = CFG_OVERRIDE.get(cfg, cfg)
     if cfg in _loaded:
         return _loaded[cfg]
     path, th, cached = ensure_facts(cfg)
